@@ -17,6 +17,7 @@ import (
 	"strings"
 	"sync"
 	"sync/atomic"
+	"time"
 
 	"github.com/grafana/dskit/services"
 )
@@ -939,9 +940,151 @@ func runFWCase(mode string, n int, weighted []string, steps int, r *rng) (done, 
 	return
 }
 
+// runFWBlockCase: a failure watcher WITHOUT a permanent reader (the channel is unbuffered). Close and
+// WatchService are called on their own goroutines; whether they have returned is observed 25 ms after every
+// action (a blocked call stays blocked; an unblocked one returns within microseconds) - the only part of the
+// C17 harness that waits for a fixed time, because "is blocked" has no event to wait for.
+func runFWBlockCase(n int, acts []string) (done, snaps []string) {
+	tr := newTrack("C17.fwblock", strconv.Itoa(n))
+	defer tr.done()
+	w := services.NewFailureWatcher()
+	pk := make(poker, 1)
+	var cs []*c17svc
+	for i := 0; i < n; i++ {
+		c := newC17svcP('b', true, true, true, pk)
+		cs = append(cs, c)
+		w.WatchService(c.svc)
+	}
+	var mu sync.Mutex
+	var got []string
+	returned, panicked := 0, 0
+	closedCh := false
+	snapshot := func() string {
+		time.Sleep(25 * time.Millisecond)
+		mu.Lock()
+		defer mu.Unlock()
+		g := "-"
+		if len(got) > 0 {
+			g = strings.Join(got, ",")
+		}
+		return g + ";" + strconv.Itoa(returned) + ";" + strconv.Itoa(panicked)
+	}
+	snaps = append(snaps, snapshot())
+	for _, a := range acts {
+		switch {
+		case a == "C":
+			go func() {
+				w.Close()
+				mu.Lock()
+				returned++
+				mu.Unlock()
+			}()
+		case a == "WS":
+			go func() {
+				defer func() {
+					mu.Lock()
+					if recover() != nil {
+						panicked++
+					}
+					returned++
+					mu.Unlock()
+				}()
+				w.WatchService(services.NewIdleService(nil, nil))
+			}()
+		case a == "RD":
+			if closedCh {
+				continue
+			}
+			select {
+			case err, ok := <-w.Chan():
+				if !ok {
+					closedCh = true
+					continue
+				}
+				mu.Lock()
+				got = append(got, c17ErrID(err))
+				mu.Unlock()
+			case <-time.After(100 * time.Millisecond):
+				continue // nothing to read
+			}
+		default:
+			kind := a[:1]
+			parts := strings.SplitN(a[1:], ":", 2)
+			i, _ := strconv.Atoi(parts[0])
+			k := 0
+			if len(parts) == 2 {
+				k, _ = strconv.Atoi(parts[1])
+			}
+			if i >= n {
+				continue
+			}
+			c := cs[i]
+			switch kind {
+			case "S":
+				if c.nS >= 1 {
+					continue
+				}
+				c.nS++
+				_ = c.svc.StartAsync(context.Background())
+			case "s":
+				if !c.release("s", k) {
+					continue
+				}
+			default:
+				continue
+			}
+			waitUntil(pk, c.quiet)
+		}
+		tr.step(a)
+		done = append(done, a)
+		snaps = append(snaps, snapshot())
+	}
+	// release everything: drain the channel so that pending Close / Watch calls return, then clean up
+	go func() {
+		for range w.Chan() {
+		}
+	}()
+	w.Close()
+	for _, c := range cs {
+		c.cleanup()
+	}
+	return
+}
+
 func runC17FW(e *env) {
 	r := newRng(e.seed, 3)
 	_ = r
+	// the unread-failure scenarios (few: each action waits 25 ms)
+	nb := 24 * e.scale
+	if nb > 120 {
+		nb = 120
+	}
+	type bres struct {
+		n           int
+		done, snaps []string
+	}
+	bs := parallelMap(nb, c17Workers(), func(i int) bres {
+		rr := newRng(e.seed, 4000+uint64(i))
+		k := 1 + rr.intn(2)
+		al := []string{"S0", "s0:1", "S1", "s1:4", "C", "C", "WS", "RD", "RD"}
+		var acts []string
+		if i < 4 {
+			acts = [][]string{{"S0", "s0:1", "C", "WS", "RD"}, {"S0", "s0:1", "RD", "C", "WS"}, {"C", "WS", "C"}, {"S0", "s0:1", "C", "C", "RD"}}[i]
+		} else {
+			for j := 0; j < 4+rr.intn(5); j++ {
+				acts = append(acts, pick(rr, al))
+			}
+		}
+		dn, sn := runFWBlockCase(k, acts)
+		return bres{k, dn, sn}
+	})
+	for _, x := range bs {
+		acts := "-"
+		if len(x.done) > 0 {
+			acts = strings.Join(x.done, " ")
+		}
+		e.emit("C17.fwblock", strconv.Itoa(x.n), acts, strings.Join(x.snaps, " | "))
+	}
 	n := 1200 * e.scale
 	type res struct {
 		mode        string
